@@ -7,6 +7,7 @@ from ..sem import B, lt, le, gt, ge, fabs, num_fn
 from ..shapes import *
 from ..rules import feasible_paths, nonconst_conds, cond_leaves
 from ..ordeval import CompiledRoot, wo, value
+from ..rules import pure_comparison
 from .. import alg
 
 ID = 'C15'
@@ -62,7 +63,7 @@ def build_roots():
         PT = 'Vec%d<f32>' % dim
         add('r_search_%s' % cn, 'pub fn r_search_%s(c: %s, p: %s, t1: f32, p1: %s, t2: f32, p2: %s) -> (f32, %s) { c.binary_search_point(p, Two(Some((t1, p1)), Some((t2, p2))), 0.0, 1.0) }' % (cn, CT, PT, PT, PT, PT),
             opaque=['*::distance_squared', '*::distance', '*::magnitude', '*::magnitude_squared'], kind='search', c=cn, deg=deg, dim=dim, steps=None)
-        for st in (2, 4):
+        for st in (1, 2, 4):
             add('r_search_steps_%s_%d' % (cn, st), 'pub fn r_search_steps_%s_%d(c: %s, p: %s) -> (f32, %s) { c.binary_search_point_by_steps(p, %d, 1.0) }' % (cn, st, CT, PT, PT, st),
                 opaque=['*::distance_squared', '*::distance', '*::magnitude', '*::magnitude_squared', '*%s*::evaluate' % cn], kind='search', c=cn, deg=deg, dim=dim, steps=st)
         for n in (0, 1, 2, 3, 7):
@@ -157,7 +158,7 @@ def run(ctx):
                 for i in range(1, n + 2):
                     e = e + alg.sqrt(sum_((pts[i][j] - pts[i - 1][j]) * (pts[i][j] - pts[i - 1][j]) for j in range(dim)))
                 ctx.same(key, p.ret, e, 'alg=: length_by_discretization(n) = polyline length through evaluate(i/(n+1)), i = 0..n+1 (n = 0 is the chord; the samples for n are a subset of those for 2n+1)', w)
-        except AssertionError as e:
+        except (AssertionError, KeyError, ValueError, TypeError, IndexError, ZeroDivisionError, AttributeError) as e:
             ctx.ob(key + '/paths', False, 'path structure', w, 'analysable', str(e))
     ctx.floor('roots analysed', done, len(roots))
 
@@ -246,6 +247,10 @@ def minmax_rule(ctx, key, rs, w, m):
     if not any(d == d_outer for d in d_atoms):
         ctx.ob(key + '/presence', False, 'paths: branches on the presence of an inflection', w, str(d_outer), [str(d) for d in d_atoms]); return
     inner = [d for d in d_atoms if not (d == d_outer)]
+    # soundness of the order-type evaluation below: the candidates are used through comparisons only
+    impure = [str(c) for p in rs.paths for c in p.conds if not pure_comparison(c)]
+    if impure:
+        ctx.ob(key + '/comparisons-only', False, 'ord (side condition): min/max selection compares the candidate coordinates and nothing else', w, 'every branch condition is a comparison of two quantities', impure[:3]); return
     cr = CompiledRoot(rs)
     quantities = [S, E] + [xa for (_, xa) in X.values()]
     tlist = list(X.values())
@@ -332,6 +337,9 @@ def search_rule(ctx, key, rs, w, m):
         if k_ not in D:
             ctx.ob(key + '/all-candidates-measured', False, 'deleg: the end point and every coarse sample are measured', w, k_, sorted(D)); return
         dat.append(D[k_])
+    impure = [str(c) for p in rs.paths for c in p.conds if not pure_comparison(c)]
+    if impure:
+        ctx.ob(key + '/comparisons-only', False, 'ord (side condition): the search compares the measured distances (and the tolerance constants) and nothing else', w, 'every branch condition is a comparison of two quantities', impure[:3]); return
     cr = CompiledRoot(rs)
     n = 0; bad = None
     for ranks in wo(len(cands)):
